@@ -22,6 +22,7 @@ import textwrap
 from sa import asdl
 from sa import core
 from sa import effects
+from sa import facts
 from sa import pycfg
 from sa import rules_order
 from sa import setalg
@@ -123,19 +124,18 @@ def _namespace(model):
   api = model.module(API)
   for n in list(api.functions) + list(api.classes) + list(api.imports) + list(api.assigns):
     names[n] = ('api', n)
-  gel = model.func(API, 'PyToPy.get_extra_locals')
-  for n in ast.walk(gel.node):
-    if isinstance(n, ast.Assign) and isinstance(n.targets[0], ast.Attribute) and \
-        core.norm(n.targets[0].value) == 'ag_internal':
-      names[n.targets[0].attr] = ('explicit', core.norm(n.value))
-    if isinstance(n, ast.Call) and core.norm(n.func) == 'ag_internal.__dict__.update':
-      src = core.norm(n.args[0])
-      modname = src.split('.__dict__')[0]
-      r = model.resolve(api, ast.parse(modname, mode='eval').body)
-      if r and r[0] == 'module':
-        m = r[1]
-        for k in list(m.functions) + list(m.classes) + list(m.imports) + list(m.assigns):
-          names[k] = ('module', m.rel)
+  xl = facts.extra_locals(model)
+  for k, v in xl['explicit'].items():
+    names[k] = ('explicit', v)
+  for src in xl['merged']:
+    modname = src.split('.__dict__')[0]
+    if modname.startswith('inspect.getmodule('):
+      continue   # the api module itself (already added above)
+    r = model.resolve(api, ast.parse(modname, mode='eval').body)
+    if r and r[0] == 'module':
+      m = r[1]
+      for k in list(m.functions) + list(m.classes) + list(m.imports) + list(m.assigns):
+        names[k] = ('module', m.rel)
   return names
 
 
